@@ -815,6 +815,12 @@ var MergeFunc = function.New(&function.Spec{
 			}
 
 			// record the first argument type for comparison
+			if ty.IsObjectType() && arg.IsNull() {
+				// A null object contributes none of its attributes to the
+				// result, so the result cannot simply have its type.
+				matching = false
+			}
+
 			if i == 0 {
 				first = arg.Type()
 				continue
